@@ -356,6 +356,18 @@ func (w *World) StubFor(endpoint string) *Stub {
 	return w.Stubs[strings.TrimPrefix(endpoint, "http://")]
 }
 
+// EnablePreemption turns preemption fuzzing on for this world (profiles whose name
+// contains "preempt"): the gateway's own goroutines give up the processor at one in
+// three statements of the controller and of the cluster info, so that whatever else is
+// runnable (another queue worker if there were one, informer handlers, requests being
+// matched and picked, probers) runs in between. seed comes from the tape.
+func (w *World) EnablePreemption(seed uint64) {
+	w.Sc.SeedPreemption(seed)
+	w.Sc.PreemptSites = func(site string) bool {
+		return strings.HasPrefix(site, "upstream_controller.go") || strings.HasPrefix(site, "clusterinfo.go")
+	}
+}
+
 // Apply submits an UpstreamCluster through the real admission plugin and, if
 // admitted, stores it (create or update). It returns the admission error.
 func (w *World) Apply(obj *proxyv1alpha1.UpstreamCluster) error {
